@@ -53,6 +53,18 @@ CHECKS = {
        "An explicitly empty source_dirs list is outside the domain. No symlinks.",
   technique="Rocq proof (list program = declarative specification; regex search lemma) + model/implementation differential on generated directory trees",
   design="4/C18"),
+ "C08": dict(
+  text="Coq theorems (C08/Props.v): lockstep simulation between the two-stack conditional machine transcribed from preprocess_file and a "
+       "frame-stack reference preprocessor, for every well-formed directive sequence of any length and nesting depth and every initial macro "
+       "table: a text line lies in a skip region iff the reference finds it inactive; #define/#undef take effect on exactly the reference's "
+       "active lines; final macro tables are equal; no region is left open. Conditions are trees with C semantics. The machine model is tied to "
+       "preprocess_file by differential execution (exhaustive small scope + random); macro expansion (object-like, nasty bodies; simple "
+       "function-like calls) and the indexing of declarations per region are checked against a reference preprocessor.",
+  note="Trusted: Coq kernel, vm_compute, differential harness, reference preprocessor. Hypotheses: well-formed conditional structure "
+       "(refuted without it), names used as values have integer bodies, no redefinition. Condition text rewriting and macro substitution are "
+       "not modelled in Coq (differential only). Known finding: function-like macro called twice per line.",
+  technique="Rocq proof (simulation/refinement between two state machines, invariant by induction over directive sequences) + exhaustive small-scope differential",
+  design="4/C08"),
 }
 NOT_YET = "not yet built in this round; see DESIGN.md section 8 (build order)"
 
